@@ -26,7 +26,7 @@ RULE = ("a case is a history of steps define(version k) / call(live version j, a
         "arguments: exhaustive up to length 4 (quick) / 5 (thorough) and sampled up to length 12, for same-session styles "
         "'cells' (each definition exec'd with its own source, as in a notebook), 'samefile' (several same-named definitions at different lines of one module file, all alive), 'lambda', 'nested', 'codeswap', 'reload' "
         "(module file rewritten + importlib.reload), and across fresh processes ('module' and '__main__' scripts, including "
-        "sessions that change nothing, and sessions in which one function object is cached by two Memory objects on two directories with calls alternating between them); distinct_nontrivial counts distinct histories with at least two versions and one "
+        "sessions that change nothing, a process that stays alive with its version while fresh processes run the same or another version, and sessions in which one function object is cached by two Memory objects on two directories with calls alternating between them); distinct_nontrivial counts distinct histories with at least two versions and one "
         "call of a version other than the latest")
 ASSUMPTIONS = [
     "a version's value is ('v<k>', a): tag equality decides which code computed it",
@@ -35,13 +35,14 @@ ASSUMPTIONS = [
     "nested functions / lambdas that differ only in closure values have the same source and are outside the statement",
 ]
 SHARDS = {"quick": 12, "thorough": 14}
-FLOORS = {"quick": {"histories": 800, "calls_checked": 2500, "old_version_calls": 700, "idreuse_achieved": 5, "forced_calls": 150, "fresh_process_sessions": 60, "unchanged_sessions_checked": 8, "histories_with_two_cache_directories": 100, "hash_colliding_code_swaps": 30, "histories_with_one_directory_under_two_spellings": 40},
-          "thorough": {"idreuse_achieved": 50, "histories": 30000, "calls_checked": 100000, "old_version_calls": 30000, "fresh_process_sessions": 2000, "unchanged_sessions_checked": 250, "histories_with_two_cache_directories": 3000, "hash_colliding_code_swaps": 500, "histories_with_one_directory_under_two_spellings": 1000}}
+FLOORS = {"quick": {"histories": 800, "calls_checked": 2500, "old_version_calls": 700, "idreuse_achieved": 5, "forced_calls": 150, "fresh_process_sessions": 60, "calls_of_a_live_process": 12, "live_histories": 3, "unchanged_sessions_checked": 8, "histories_with_two_cache_directories": 100, "hash_colliding_code_swaps": 30, "histories_with_one_directory_under_two_spellings": 40},
+          "thorough": {"idreuse_achieved": 50, "histories": 30000, "calls_checked": 100000, "old_version_calls": 30000, "fresh_process_sessions": 2000, "calls_of_a_live_process": 150, "live_histories": 40, "unchanged_sessions_checked": 250, "histories_with_two_cache_directories": 3000, "hash_colliding_code_swaps": 500, "histories_with_one_directory_under_two_spellings": 1000}}
 
 EXEC = []
 _uid = [0]
 _shape_i = [0]
 SESSION = os.path.join(harness.VERIF, "checks", "c12_session.py")
+LIVE = os.path.join(harness.VERIF, "checks", "c12_live.py")
 
 
 def steps_alphabet(nv, na, force=False):
@@ -88,6 +89,8 @@ def cases(tier, seed):
     m = 40 if tier == "quick" else 600
     for i in range(m):
         yield dict(kind="processes", i=i)
+    for i in range(12 if tier == "quick" else 150):
+        yield dict(kind="live", i=i)
 
 
 # ---------------------------------------------------------------------------
@@ -337,6 +340,8 @@ def run_hashtwin(ctx, d, rng):
 def run_case(case, ctx):
     if case["kind"] == "processes":
         return run_processes(case, ctx)
+    if case["kind"] == "live":
+        return run_live(case, ctx)
     d = harness.mkscratch("vjl-c12-")
     sys.path.insert(0, d)
     try:
@@ -446,4 +451,98 @@ def run_processes(case, ctx):
         if case["i"] % 12 == 0:
             ctx.sample(dict(style=style, sessions=hist))
     finally:
+        shutil.rmtree(d, ignore_errors=True)
+
+
+# ---------------------------------------------------------------------------
+# a process that stays alive (holding version k1) while fresh processes come and go with version k2
+
+
+def run_live(case, ctx):
+    import subprocess
+    import time
+    rng = harness.rng_for(ctx.seed, ID, "live", case["i"])
+    d = harness.mkscratch("vjl-c12l-")
+    log = os.path.join(d, "exec.log")
+    open(log, "w").close()
+    k1 = rng.randint(1, 3)
+    k2 = k1 if case["i"] % 3 == 0 else rng.choice([k for k in (1, 2, 3) if k != k1])
+    same = k1 == k2
+    cf = os.path.join(d, "live.json")
+    with open(cf, "w") as f:
+        json.dump(dict(dir=d, version=k1, log=log, lifetime=200), f)
+    lf = open(os.path.join(d, "live.log"), "wb")
+    live = subprocess.Popen([harness.PY, "-X", "faulthandler", LIVE, cf], env=harness.child_env(), stdin=subprocess.DEVNULL, stdout=lf, stderr=lf,
+                            start_new_session=True, cwd=d)
+    ncmd = [0]
+    hist = []
+    ctx.evaluated()
+
+    def ask_live(args):
+        n = ncmd[0]
+        ncmd[0] += 1
+        with open(os.path.join(d, f"cmd{n}.json.tmp"), "w") as f:
+            json.dump(dict(op="call", args=args), f)
+        os.replace(os.path.join(d, f"cmd{n}.json.tmp"), os.path.join(d, f"cmd{n}.json"))
+        t_end = time.monotonic() + 90
+        rf = os.path.join(d, f"res{n}.json")
+        while time.monotonic() < t_end:
+            if os.path.exists(rf):
+                return json.load(open(rf))
+            if live.poll() is not None:
+                return None
+            time.sleep(0.01)
+        return None
+
+    def fresh(k, args, si):
+        c, o = os.path.join(d, f"cfg{si}.json"), os.path.join(d, f"out{si}.json")
+        with open(c, "w") as f:
+            json.dump(dict(style="module", version=k, args=args, dir=d, log=log, shape=None, which=None), f)
+        r = harness.run_py([SESSION, c, o], timeout=120, result_file=o, cwd=d)
+        return r["result"], r["err"]
+
+    try:
+        steps = [("live", k1)]
+        for _ in range(rng.randint(1, 3)):
+            steps += [("fresh", k2), ("live", k1)]
+        steps.append(("fresh", k2))
+        for si, (who, k) in enumerate(steps):
+            args = [rng.randint(0, 2) for _ in range(rng.randint(1, 3))]
+            if who == "live":
+                res = ask_live(args)
+                err = None if res else open(os.path.join(d, "live.log"), "rb").read()[-300:].decode("utf8", "replace")
+                ctx.count("calls_of_a_live_older_process" if not same and si else "calls_of_a_live_process")
+            else:
+                res, err = fresh(k, args, si)
+                ctx.count("fresh_process_sessions")
+            hist.append((who, k, args))
+            desc = dict(style="live-process", k_live=k1, k_fresh=k2, steps=hist)
+            if not res:
+                ctx.inconclusive("session-failed", dict(desc=desc, err=str(err)[-300:]))
+                return
+            if "error" in res:
+                ctx.violation("raises:live-process" + ("" if same else "-older"), f"{who} process (version {k}) raised {res['error']}; steps {hist}", desc)
+                return
+            for a, got in zip(args, res["values"]):
+                ctx.count("calls_checked")
+                if got != [f"v{k}", a]:
+                    # one key per mechanism: a process that validated the recorded code before another process replaced it keeps
+                    # trusting the directory (reads the newer code's values, stores its own below the newer code)
+                    key = "wrong-version:live-process-same-code" if same else "wrong-version:live-older-process"
+                    ctx.violation(key, f"{who} process running version {k}: f({a}) returned {got}; steps {hist} (live process holds version {k1})", desc)
+                    return
+        ctx.count("live_histories")
+        ctx.sig(("live", hist))
+        if case["i"] % 6 == 0:
+            ctx.sample(dict(style="live-process", steps=hist))
+    finally:
+        try:
+            with open(os.path.join(d, f"cmd{ncmd[0]}.json"), "w") as f:
+                json.dump(dict(op="quit"), f)
+            live.wait(5)
+        except Exception:  # noqa
+            pass
+        if live.poll() is None:
+            harness.kill_group(live.pid)
+        lf.close()
         shutil.rmtree(d, ignore_errors=True)
